@@ -1,4 +1,4 @@
-    broadcast use {lemma_bcd_fold_overflow, lemma_shr4_le, lemma_and_0f_le, lemma_u16_shr8};
+    broadcast use {crate::frame::lemma_tail_intro, crate::frame::lemma_tail_elim, crate::frame::lemma_tail_refl, lemma_bcd_fold_overflow, lemma_shr4_le, lemma_and_0f_le, lemma_u16_shr8};
 
     /// Contract of a value encoding (C17; used by C01, C03, C14).
     pub trait Encoding<T> {
@@ -29,7 +29,7 @@
         //@ tag dec.err C17 C02
                 (Self::functional() && Self::spec_dec(bytes@) is None) ==> r is Err,
         //@ tag dec.frame C14
-                r matches Ok((v2, rest)) ==> (rest@.len() <= bytes@.len() && rest@ =~= bytes@.skip(bytes@.len() - rest@.len())),
+                r matches Ok((v2, rest)) ==> is_tail(rest@, bytes@) && rest@.len() <= bytes@.len(),
         //@ tag dec.progress C02
                 Self::progresses() ==> (r matches Ok((v2, rest)) ==> rest@.len() < bytes@.len()),
         //@ end
@@ -226,7 +226,7 @@
         open spec fn ser_pre(&self, tag: Option<Tag>) -> bool { default_ser_pre::<Self, L, E, TE>(self, tag) }
         open spec fn spec_ser_tagged(&self, tag: Option<Tag>) -> Seq<u8> { default_spec_ser::<Self, L, E, TE>(self, tag) }
         open spec fn deser_pre(tag: Option<Tag>) -> bool { L::wf() }
-        open spec fn functional() -> bool { E::functional() && TE::functional() }
+        open spec fn functional() -> bool { $FUNC }
         open spec fn deser_progresses(tag: Option<Tag>) -> bool { tag is Some && TE::progresses() }
         open spec fn deser_defined(b: Seq<u8>, tag: Option<Tag>) -> bool { default_spec_deser::<Self, L, E, TE>(b, tag) is Some }
         open spec fn deser_ok(b: Seq<u8>, tag: Option<Tag>, v: Self, k: int) -> bool { default_spec_deser::<Self, L, E, TE>(b, tag) == Some((v, k)) }
@@ -239,7 +239,7 @@
         open spec fn ser_pre(&self, tag: Option<Tag>) -> bool { default_ser_pre::<Self, L, E, TE>(self, tag) }
         open spec fn spec_ser_tagged(&self, tag: Option<Tag>) -> Seq<u8> { default_spec_ser::<Self, L, E, TE>(self, tag) }
         open spec fn deser_pre(tag: Option<Tag>) -> bool { L::wf() }
-        open spec fn functional() -> bool { E::functional() && TE::functional() }
+        open spec fn functional() -> bool { $FUNC }
         open spec fn deser_progresses(tag: Option<Tag>) -> bool { tag is Some && TE::progresses() }
         open spec fn deser_defined(b: Seq<u8>, tag: Option<Tag>) -> bool { default_spec_deser::<Self, L, E, TE>(b, tag) is Some }
         open spec fn deser_ok(b: Seq<u8>, tag: Option<Tag>, v: Self, k: int) -> bool { default_spec_deser::<Self, L, E, TE>(b, tag) == Some((v, k)) }
@@ -252,7 +252,7 @@
         open spec fn ser_pre(&self, tag: Option<Tag>) -> bool { default_ser_pre::<Self, L, E, TE>(self, tag) }
         open spec fn spec_ser_tagged(&self, tag: Option<Tag>) -> Seq<u8> { default_spec_ser::<Self, L, E, TE>(self, tag) }
         open spec fn deser_pre(tag: Option<Tag>) -> bool { L::wf() }
-        open spec fn functional() -> bool { E::functional() && TE::functional() }
+        open spec fn functional() -> bool { $FUNC }
         open spec fn deser_progresses(tag: Option<Tag>) -> bool { tag is Some && TE::progresses() }
         open spec fn deser_defined(b: Seq<u8>, tag: Option<Tag>) -> bool { default_spec_deser::<Self, L, E, TE>(b, tag) is Some }
         open spec fn deser_ok(b: Seq<u8>, tag: Option<Tag>, v: Self, k: int) -> bool { default_spec_deser::<Self, L, E, TE>(b, tag) == Some((v, k)) }
@@ -265,7 +265,7 @@
         open spec fn ser_pre(&self, tag: Option<Tag>) -> bool { default_ser_pre::<Self, L, E, TE>(self, tag) }
         open spec fn spec_ser_tagged(&self, tag: Option<Tag>) -> Seq<u8> { default_spec_ser::<Self, L, E, TE>(self, tag) }
         open spec fn deser_pre(tag: Option<Tag>) -> bool { L::wf() }
-        open spec fn functional() -> bool { E::functional() && TE::functional() }
+        open spec fn functional() -> bool { $FUNC }
         open spec fn deser_progresses(tag: Option<Tag>) -> bool { tag is Some && TE::progresses() }
         open spec fn deser_defined(b: Seq<u8>, tag: Option<Tag>) -> bool { default_spec_deser::<Self, L, E, TE>(b, tag) is Some }
         open spec fn deser_ok(b: Seq<u8>, tag: Option<Tag>, v: Self, k: int) -> bool { default_spec_deser::<Self, L, E, TE>(b, tag) == Some((v, k)) }
@@ -278,7 +278,7 @@
         open spec fn ser_pre(&self, tag: Option<Tag>) -> bool { default_ser_pre::<Self, L, E, TE>(self, tag) }
         open spec fn spec_ser_tagged(&self, tag: Option<Tag>) -> Seq<u8> { default_spec_ser::<Self, L, E, TE>(self, tag) }
         open spec fn deser_pre(tag: Option<Tag>) -> bool { L::wf() }
-        open spec fn functional() -> bool { E::functional() && TE::functional() }
+        open spec fn functional() -> bool { $FUNC }
         open spec fn deser_progresses(tag: Option<Tag>) -> bool { tag is Some && TE::progresses() }
         open spec fn deser_defined(b: Seq<u8>, tag: Option<Tag>) -> bool { default_spec_deser::<Self, L, E, TE>(b, tag) is Some }
         open spec fn deser_ok(b: Seq<u8>, tag: Option<Tag>, v: Self, k: int) -> bool { default_spec_deser::<Self, L, E, TE>(b, tag) == Some((v, k)) }
@@ -291,7 +291,7 @@
         open spec fn ser_pre(&self, tag: Option<Tag>) -> bool { default_ser_pre::<Self, L, E, TE>(self, tag) }
         open spec fn spec_ser_tagged(&self, tag: Option<Tag>) -> Seq<u8> { default_spec_ser::<Self, L, E, TE>(self, tag) }
         open spec fn deser_pre(tag: Option<Tag>) -> bool { L::wf() }
-        open spec fn functional() -> bool { E::functional() && TE::functional() }
+        open spec fn functional() -> bool { $FUNC }
         open spec fn deser_progresses(tag: Option<Tag>) -> bool { tag is Some && TE::progresses() }
         open spec fn deser_defined(b: Seq<u8>, tag: Option<Tag>) -> bool { default_spec_deser::<Self, L, E, TE>(b, tag) is Some }
         open spec fn deser_ok(b: Seq<u8>, tag: Option<Tag>, v: Self, k: int) -> bool { default_spec_deser::<Self, L, E, TE>(b, tag) == Some((v, k)) }
@@ -376,7 +376,7 @@
         //@ fn src:zvt_builder/src/encoding.rs | impl Encoding<NaiveDateTime> for Default | decode | all-loops props=C02 $M
         //@ loop 0
                 invariant
-                    data@.len() <= data0.len() && data@ =~= data0.skip(data0.len() - data@.len()),
+                    is_tail(data@, data0),
                 decreases data@.len(),
         //@ entry
             let ghost data0 = data@;
@@ -385,12 +385,12 @@
         proof fn law_dec_frame(b: Seq<u8>, s: Seq<u8>) {}
         proof fn law_inverse(v: &NaiveDateTime) {}
     }
-    //@ include ../prelude/tagset.rs
+    //@ include ../prelude/tagset.rs TAGSET_INSERT=$TSI TAGSET_REMOVE=$TSR
     impl<L: length::Length, E: encoding::Encoding<NaiveDateTime>, TE: encoding::Encoding<Tag>> ZvtSerializerImpl<L, E, TE> for NaiveDateTime {
         open spec fn ser_pre(&self, tag: Option<Tag>) -> bool { default_ser_pre::<Self, L, E, TE>(self, tag) }
         open spec fn spec_ser_tagged(&self, tag: Option<Tag>) -> Seq<u8> { default_spec_ser::<Self, L, E, TE>(self, tag) }
         open spec fn deser_pre(tag: Option<Tag>) -> bool { L::wf() }
-        open spec fn functional() -> bool { E::functional() && TE::functional() }
+        open spec fn functional() -> bool { $FUNC }
         open spec fn deser_progresses(tag: Option<Tag>) -> bool { tag is Some && TE::progresses() }
         open spec fn deser_defined(b: Seq<u8>, tag: Option<Tag>) -> bool { default_spec_deser::<Self, L, E, TE>(b, tag) is Some }
         open spec fn deser_ok(b: Seq<u8>, tag: Option<Tag>, v: Self, k: int) -> bool { default_spec_deser::<Self, L, E, TE>(b, tag) == Some((v, k)) }
